@@ -74,7 +74,8 @@ CHECKS = {
         "enumeration of (document x position x method) over the sample corpus and intrinsic tables + Hypothesis text mutation, with a totality / LSP-shape / range-in-document oracle",
         "Every positional method is sent at every interesting position (thorough: every position) of every repository sample, of mutated "
         "samples and on every intrinsic/keyword table entry; an error response, a result not matching the LSP 3.17 shape, or any range that "
-        "does not address an existing place of the server's copy of the target document is a violation (grouped by failing code site).",
+        "does not address an existing place of the server's copy of the target document is a violation (grouped by failing code site). "
+        "Also generated: preprocessed documents whose macros move columns, and valid programs (reference-model programs in any layout, idiom modules).",
         "Shapes as encoded in harness/shapes.py; ranges validated against the server's own buffer of the target document.",
         "DESIGN.md §3 C09",
     ),
@@ -100,7 +101,7 @@ CHECKS = {
     "C19": (
         "fault_enumeration",
         "enumeration of option x channel cells and of configuration-file faults, differential against a reference run that gets the effective values by CLI only; Hypothesis for option pairs/triples",
-        "Every documented option is exercised in the cells file-only, both (two orders), CLI + silent file, with each configuration file name; "
+        "Every documented option is exercised in the cells file-only, both (two orders), CLI + silent file, with each configuration file name (pp_defs also in its list spelling); "
         "an observable battery (capabilities, messages, discovered files, diagnostics, outline, hover, completion, signature help, recursion "
         "limit) and the option attributes must equal those of a server given the model's effective values on the command line. Faulty files "
         "(missing named file, empty, truncated, garbage, non-object top level, wrong value types) must produce a message, leave the battery as "
@@ -135,7 +136,8 @@ CHECKS = {
         "For every generated program and layout (END spellings full / keyword only / bare / joined, case, spacing, comments, line endings) the "
         "outline must contain each unit and each directly contained procedure / type / named interface exactly once with the right kind, container "
         "and the lines of its opening and END statements, type members once under their type, and no entry that matches no declared entity; "
-        "workspace/symbol for drawn queries must equal the set of units and module members whose name contains the query, sorted by name.",
+        "workspace/symbol for drawn queries must equal the set of units and module members whose name contains the query, sorted by name. "
+        "Every fourth program gets a file with a host module, a submodule and a submodule of that submodule (header spellings, END forms, contents drawn).",
         "Members of a main program are tolerated in workspace/symbol (fortls treats a program like a module); deeper-nested outline entries are not required.",
         "DESIGN.md §3 C04",
     ),
@@ -146,7 +148,7 @@ CHECKS = {
         "re-laid-out program (LF/CRLF/CR, trailing blanks, comments, blank lines, keyword/identifier case, END spellings, & continuation with and "
         "without leading &, ; joining incl. declarations) must equal those of the plain rendering; differences are classified by the local "
         "context of the statement involved (use site / target declaration / base object declaration / type definition continued or joined).",
-        "Both renderings come from one abstract statement list (same meaning by construction; transformed text sampled through gfortran). indent <= 4.",
+        "Both renderings come from one abstract statement list (same meaning by construction; transformed text sampled through gfortran).",
         "DESIGN.md §3 C13",
     ),
     "C14": (
@@ -162,7 +164,8 @@ CHECKS = {
         "exploration",
         "Hypothesis-generated sync-event histories over generated multi-file workspaces, differential against a fresh server on the same directory",
         "Histories of open / full or ranged change to a semantic variant / save / close / create / delete+close / external modification+save over a "
-        "generated workspace plus a hand-written bundle (INCLUDE, submodule, cpp, EXTENDS across files), with intermediate query batteries to populate "
+        "generated workspace plus a hand-written bundle (INCLUDE, submodule, cpp with a shared header and a two-directory include, three-level EXTENDS across files), "
+        "bursts of up to 1999 changes between two saves, with intermediate query batteries to populate "
         "caches; after every open document has been saved the normalised battery (indexed files, diagnostics, outline, workspace symbols, definition, "
         "hover, references, completion) of the long-lived server must equal that of a freshly initialised one.",
         "Deletions are communicated by closing the document; plain .f90 files do not share macro names; the battery samples up to 30 identifiers per file.",
@@ -171,7 +174,7 @@ CHECKS = {
     "C15": (
         "exploration",
         "differential testing across harness-owned schedules/configurations: worker count (real Pool), hash seed (fresh process per seed), permuted os.listdir/os.walk order, open-one-at-a-time order",
-        "For generated multi-directory workspaces plus a cross-linked bundle, the normalised battery of every drawn configuration (nthreads 1..16, "
+        "For generated multi-directory workspaces plus a cross-linked bundle (and, half of the time, one header name in two include directories), the normalised battery of every drawn configuration (nthreads 1..16, "
         "PYTHONHASHSEED, listing-order permutation - exhaustive for a 4-file directory in the thorough tier -, or starting empty and opening the files "
         "in a drawn order) must equal that of the reference configuration.",
         "The interleaving of Pool workers is sampled, not controlled; unit names are unique.",
@@ -200,10 +203,10 @@ CHECKS = {
     "C11": (
         "exploration",
         "Hypothesis grammar-based generation of declarations / documented procedures / call sites with known ground truth; hover parsed back by a normaliser (round trip), signature-help oracle",
-        "Drawn declarations (type x selector incl. nested parentheses x attribute order x entity-level dims/len x initialiser x documentation placement; "
+        "Drawn declarations (type x selector incl. nested parentheses x attribute order x entity-level dims/len, also against a DIMENSION attribute / length selector of the statement, x initialiser x documentation placement; "
         "gfortran-validated on a sample) are hovered and the code block is parsed back into (type, selector, attribute set, name, value, documentation) and "
         "compared with the generated declaration; procedure hovers must list the dummies and their declarations in order with their documentation; "
-        "signatureHelp at every argument position (positional, plain and keyword calls) must mark the right parameter.",
+        "signatureHelp at every argument position (positional, plain, keyword in any order, relational values, comparisons on names of dummies, cursor inside inner parentheses) must mark the right parameter.",
         "Hover text is compared after upper-casing and removing blanks; documentation styles may be mixed between neighbouring entities (classified).",
         "DESIGN.md §3 C11",
     ),
